@@ -125,3 +125,92 @@ def strip_int(node):
     while isinstance(node, ast.Call) and isinstance(node.func, ast.Name) and node.func.id == "int" and len(node.args) == 1:
         node = node.args[0]
     return node
+
+
+# ---------------------------------------------------------------------------------------------------------
+# abstract values (sa.av): what a builder function computes, independent of how it is spelled
+
+from sa import av as _av  # noqa: E402
+from sa import tm as _tm  # noqa: E402
+
+
+def AV(ctx: Ctx, everything: bool = False) -> "_av.AV":
+    key = "_av_all" if everything else "_av"
+    a = ctx.__dict__.get(key)
+    if a is None:
+        a = _av.AV(ctx.sm, inline=(lambda callee: True) if everything else None)
+        ctx.__dict__[key] = a
+    return a
+
+
+def value_of(ctx: Ctx, f: Func, args: dict | None = None, everything: bool = False):
+    """Abstract value returned by f (cached per function / arguments)."""
+    cache = ctx.__dict__.setdefault("_av_values", {})
+    k = (f.rel, f.qualname, tuple(sorted((args or {}).items())), everything)
+    if k not in cache:
+        cache[k] = AV(ctx, everything).returned(f, args)[0]
+    return cache[k]
+
+
+def skeleton(ctx: Ctx, rule: str, short: str, name: str, args: dict | None = None):
+    """Resolved text skeleton of a template function; None (and an 'undecided' record) when it is not one text."""
+    T = ctx.__dict__.get("_tmodel")
+    if T is None:
+        T = _tm.TemplateModel(ctx.sm)
+        ctx.__dict__["_tmodel"] = T
+    try:
+        return T.skeleton(short, name, args)
+    except _tm.Undecided as e:
+        ctx.undecided(rule, f"src/gotranx/{short}::{name}::skeleton", str(e))
+        return None
+
+
+def squash(text: str) -> str:
+    import re
+
+    return re.sub(r"\s+", " ", text).strip()
+
+
+def call_kwargs(v, name: str | None = None) -> dict | None:
+    """kwargs of an opaque call value ``name(...)``"""
+    if isinstance(v, tuple) and v and v[0] == "call" and (name is None or v[1].split(".")[-1] == name):
+        return dict(v[3])
+    return None
+
+
+def find_calls_av(v, name: str) -> list:
+    return [c for c in _av.find_all(v, "call") if c[1].split(".")[-1] == name] + [c for c in _av.find_all(v, "mcall") if c[2] == name]
+
+
+def strings_in(v) -> list[str]:
+    """flat text of every string-valued sub-term"""
+    out = []
+
+    def rec(x):
+        if isinstance(x, tuple) and x:
+            if x[0] == "s" or (x[0] == "c" and isinstance(x[1], str)):
+                out.append(_av.flatten(x).replace(_av.HO, "{").replace(_av.HC, "}"))
+                if x[0] == "c":
+                    return
+            for y in x:
+                rec(y)
+
+    rec(v)
+    return out
+
+
+def av_size_family(v) -> str | None:
+    from sa import slots
+
+    if v[0] == "list" and len(v[1]) == 1:
+        v = v[1][0]
+    while v[0] == "call" and v[1] == "int" and len(v[2]) == 1:
+        v = v[2][0]
+    t = _av.show(v)
+    if t.startswith("(") and t.endswith(")"):
+        t = t[1:-1]
+    t = t.replace("self.ode.", "ODE.").replace("ode.", "ODE.")
+    for fam, texts in slots.SIZE_CLASSES.items():
+        if t in texts:
+            return fam
+    return None
